@@ -351,6 +351,109 @@ def impl_attr_fields(a):
         g.close()
 
 
+# ------------------------------------------------------------------ derived types (Gen/Derive.lean)
+def gen_override(rng, tier):
+    occs = [(1, 1), (0, 1), (0, MAXSIZE), (1, MAXSIZE), (2, 2), (0, 0), (2, 5)]
+    dfl = [(None, False), ("dv", False), ("dv", True), ("x", False)]
+    for cmn, cmx in occs:
+        for pmn, pmx in occs:
+            for cd, cf in dfl:
+                for pd, pf in dfl[:3]:
+                    yield {"child": {"min": cmn, "max": cmx, "default": cd, "fixed": cf}, "parent": {"min": pmn, "max": pmx, "default": pd, "fixed": pf}}
+    for _ in range(n_cases(tier, 100, 5000)):
+        yield {"child": G.gen_oattr(rng), "parent": G.gen_oattr(rng)}
+
+
+def impl_override(a):
+    try:
+        return ok(G.real_override(a["child"], a["parent"]))
+    except Exception as e:  # noqa: BLE001
+        return err("LEAK:" + type(e).__name__)
+
+
+def gen_restrict(rng, tier):
+    """base: 1..5 elements; own: a subsequence of the base names re-declared with any bounds, sometimes a new name"""
+    for _ in range(n_cases(tier, 250, 8000)):
+        names = rng.sample(list("abcdefg"), rng.randint(1, 5))
+        base = [G.gen_oattr(rng, n) for n in names]
+        own = [G.gen_oattr(rng, n) for n in names if rng.random() < 0.6]
+        if rng.random() < 0.15:
+            own.append(G.gen_oattr(rng, "z"))
+        yield {"base": base, "own": own}
+
+
+def impl_restrict_attrs(a):
+    try:
+        return ok(G.real_restrict_attrs(a["base"], a["own"]))
+    except Exception as e:  # noqa: BLE001
+        return err("LEAK:" + type(e).__name__)
+
+
+def gen_restrict_fields(rng, tier):
+    for a in gen_restrict(rng, "quick" if tier == "quick" else tier):
+        # the mapper reads `default`+`fixed` from one declaration: keep what a schema can say; no maxOccurs=0 in the base
+        ok_ = all(o["max"] > 0 for o in a["base"]) and all(not (o["max"] == 0 and o["default"] is not None) for o in a["own"])
+        if ok_ and a["own"]:
+            yield a
+
+
+def named_shapes(cls):
+    import dataclasses as dc
+
+    out = []
+    for f in dc.fields(cls):
+        if f.metadata.get("type") == "Ignore":
+            out.append([f.metadata.get("name", f.name), "prohibited"])
+        elif f.metadata.get("type") == "Element":
+            out.append([f.metadata.get("name", f.name), G.dataclass_field_shape(f)])
+    return out
+
+
+def impl_restrict_fields(a):
+    g = CG.run_pipeline({"s.xsd": G.derive_xsd(a["base"], own=a["own"])})
+    try:
+        if g.error is not None:
+            return err("GEN:" + type(g.error).__name__)
+        classes = g.classes()
+        if classes["C"].__bases__[0].__name__ != "A":
+            return {"unmodelled": "the restriction base was dropped (FlattenClassExtensions.should_remove_extension)"}
+        return ok({"derived": named_shapes(classes["C"]), "base": named_shapes(classes["A"])})
+    finally:
+        g.close()
+
+
+def canon_restrict_fields(o):
+    return o
+
+
+def gen_ext(rng, tier):
+    for _ in range(n_cases(tier, 80, 4000)):
+        pa = G.gen_particle(rng, distinct=["a", "b", "c", "d"])
+        pb = G.gen_particle(rng, distinct=["e", "f", "g", "h"])
+        if pa is None or pb is None or "elem" in pa or "elem" in pb:
+            continue
+        yield {"base": pa, "ext": pb}
+
+
+def impl_ext_fields(a):
+    g = CG.run_pipeline({"s.xsd": G.derive_xsd(a["base"], ext=a["ext"])})
+    try:
+        if g.error is not None:
+            return err("GEN:" + type(g.error).__name__)
+        classes = g.classes()
+        if classes["B"].__bases__[0].__name__ != "A":
+            return {"unmodelled": "the extension was flattened or dropped"}
+        return ok([[n, [isinstance(sh, dict) and sh["default"] == "list", isinstance(sh, dict) and sh["default"] == "MISSING"]] for n, sh in named_shapes(classes["B"])])
+    finally:
+        g.close()
+
+
+def canon_ext_fields(o):
+    if isinstance(o, dict) and "ok" in o and o["ok"] and isinstance(o["ok"][0], dict):
+        return {"ok": [[s["name"], [s["max"] > 1, s["min"] >= 1 and s["max"] <= 1]] for s in o["ok"]]}
+    return o
+
+
 CORRS = [
     Corr("gen.xsd_sites", gen_sites, impl_sites, canon=canon_sites, describe="SchemaParser+SchemaMapper element sites and paths vs model"),
     Corr("gen.calc_paths", stage_gen("calc"), stage_impl("calc"), describe="CalculateAttributePaths.process vs model"),
@@ -374,6 +477,14 @@ CORRS = [
          describe="SanitizeAttributesDefaultValue.process_attribute on constructed attrs vs model"),
     Corr("gen.attr_fields", gen_attr_fields, impl_attr_fields,
          describe="use/default/fixed: whole real pipeline + stand-in renderer: presence, init and default of the dataclass field of every declaration vs model"),
+    Corr("gen.override", gen_override, impl_override,
+         describe="ValidateAttributesOverrides.validate_override on constructed child/parent attrs vs model"),
+    Corr("gen.restrict_attrs", gen_restrict, impl_restrict_attrs,
+         describe="ValidateAttributesOverrides.process on a constructed class with a restriction base (validate_attrs + prohibit_parent_attrs) vs model"),
+    Corr("gen.restrict_fields", gen_restrict_fields, impl_restrict_fields, compare=lambda m, i, a: "unmodelled" in i or m == i,
+         describe="complexContent restriction: whole real pipeline + stand-in renderer, the dataclass fields of base and derived class vs model"),
+    Corr("gen.ext_fields", gen_ext, impl_ext_fields, canon=canon_ext_fields, compare=lambda m, i, a: "unmodelled" in i or m == i,
+         describe="complexContent extension: whole real pipeline + stand-in renderer, list-ness / requiredness of inherited + own fields of the derived class vs model"),
     Corr("c02.e2e", gen_e2e, impl_e2e, spec=spec_e2e,
          describe="spec-level: schema (typed elements, unions) -> real pipeline under default / compound-field / output-only options -> strict parse of valid documents -> re-serialise; expected: faithful"),
 ]
@@ -746,6 +857,80 @@ def gen_attr_docs(rng, tier):
         yield {"decls": decls, "docs": docs, "config": {"compound_fields": True} if rng.random() < 0.2 else {}}
 
 
+def oracle_derived(a):
+    """types derived by extension / restriction: documents valid for the derived type parse into the derived
+    class under strict settings and come back with the same children"""
+    from lxml import etree
+    from xsdata.formats.dataclass.context import XmlContext
+    from xsdata.formats.dataclass.parsers import XmlParser
+    from xsdata.formats.dataclass.parsers.config import ParserConfig
+    from xsdata.formats.dataclass.serializers import XmlSerializer
+
+    xsd = G.derive_xsd(a["base"], own=a.get("own"), ext=a.get("ext"))
+    try:
+        schema = etree.XMLSchema(etree.fromstring(xsd.encode()))
+    except etree.XMLSchemaParseError:
+        return None
+    g = CG.run_pipeline({"s.xsd": xsd}, **a.get("config", {}))
+    try:
+        if g.error is not None:
+            return f"generation failed: {type(g.error).__name__}: {g.error}"
+        ctx = XmlContext()
+        parser = XmlParser(context=ctx, config=ParserConfig(fail_on_unknown_properties=True, fail_on_unknown_attributes=True, fail_on_converter_warnings=True))
+        for root, words in a["docs"].items():
+            R = g.classes()[root.capitalize()]
+            for w in words:
+                doc = G.word_doc(w, root=root)
+                if not schema.validate(etree.fromstring(doc.encode())):
+                    continue
+                try:
+                    obj = parser.from_string(doc, R)
+                except Exception as e:  # noqa: BLE001
+                    return f"schema-valid document {doc} rejected: {type(e).__name__}: {e}"
+                out = XmlSerializer(context=ctx).render(obj)
+                back = etree.fromstring(out.encode())
+                got = [(etree.QName(c).localname, c.text) for c in back]
+                if sorted(got) != sorted(zip(w, G.word_values(w))):
+                    return f"document {doc} re-serialised with other content: {out}"
+    finally:
+        g.close()
+    return None
+
+
+def gen_derived(rng, tier):
+    n = 0
+    while n < n_cases(tier, 60, 100000):
+        n += 1
+        names = rng.sample(list("abcdefg"), rng.randint(1, 4))
+        base = []
+        for nm in names:
+            mn, mx = rng.choice([(1, 1), (0, 1), (0, MAXSIZE), (1, MAXSIZE), (0, 3), (2, 5)])
+            base.append({"name": nm, "min": mn, "max": mx, "default": None, "fixed": False})
+        own = []
+        for o in base:
+            r = rng.random()
+            if o["min"] == 0 and r < 0.3:
+                continue  # left out by the restriction
+            mn = rng.randint(o["min"], o["min"] + 1)
+            hi = o["max"] if o["max"] != MAXSIZE else rng.choice([MAXSIZE, 1, 2, 4])
+            mx = hi if r < 0.6 else max(mn, min(hi, rng.choice([1, 2, 3])))
+            if mx < mn:
+                mn = mx
+            own.append({**o, "min": mn, "max": mx})
+        ext = G.gen_particle(rng, distinct=["p", "q", "r", "s"])
+        if ext is not None and "elem" in ext:
+            ext = {"seq": [1, 1, [ext]]}
+        base_p = {"seq": [1, 1, [{"elem": [o["name"], o["min"], o["max"]]} for o in base]]}
+        own_p = {"seq": [1, 1, [{"elem": [o["name"], o["min"], o["max"]]} for o in own]]} if own else None
+        docs = {"ra": [G.sample_word(rng, base_p) for _ in range(3)]}
+        if own_p:
+            docs["rc"] = [G.sample_word(rng, own_p) for _ in range(4)] + [G.sample_word(rng, base_p)]
+        if ext is not None:
+            docs["rb"] = [G.sample_word(rng, base_p) + G.sample_word(rng, ext) for _ in range(4)]
+        yield {"base": base, "own": own if own_p else None, "ext": ext, "docs": docs,
+               "config": {"compound_fields": True} if rng.random() < 0.2 else {}}
+
+
 def covered_groups(a, msg):
     return None  # element names are distinct inside the group: the duplicate-site finding cannot apply
 
@@ -774,6 +959,7 @@ ORACLES = [
     Oracle("c02.group_refs", gen_groups, oracle_groups, covered=covered_groups),
     Oracle("c02.gschema_docs", gen_gschema_docs, oracle_gschema, covered=covered_gschema),
     Oracle("c02.attr_docs", gen_attr_docs, oracle_attr_docs),
+    Oracle("c02.derived_docs", gen_derived, oracle_derived),
 ]
 
 
